@@ -42,3 +42,17 @@ Theorem C07_type1_swap : forall (pi_ : R) W rad1 fa fb A B,
   type1 ROps pi_ W rad1 fa fb A B = type1 ROps pi_ W rad1 fb fa B A.
 Proof. exact type1_swap. Qed.
 Print Assumptions C07_type1_swap.
+
+(* ... and the whole dispatch of ECPIntegral::type2 (both on the centre / one on the centre, mirrored for B / the LA <= LB
+   choice with the transposed copy-back), as modelled by pair_t2 (the function the K-a correspondence executes): exchanging
+   the shells -- functions, shifts, harmonics, primitive lists, on-centre flags, and the radial tables as the library
+   stores them for the exchanged call -- gives the same value. *)
+From LV Require Import ShellPair.ShellPairDispatch.
+Theorem C07_pair_t2_swap : forall (pi_ : R) Om gamma onA onB LA LB pA pB pU (SA SB : nat -> Z -> R)
+    (radq radg radq' radg' : nat -> nat -> nat -> R) lam fa fb A B mu,
+  (forall N l1 l2, radq' N l1 l2 = radq N l2 l1) ->
+  (if Nat.eqb LA LB then forall N l1 l2, radg' N l1 l2 = radg N l2 l1 else forall N l1 l2, radg' N l1 l2 = radg N l1 l2) ->
+  pair_t2 ROps pi_ Om gamma onA onB LA LB pA pB pU SA SB radq radg lam fa fb A B mu
+  = pair_t2 ROps pi_ Om gamma onB onA LB LA pB pA pU SB SA radq' radg' lam fb fa B A mu.
+Proof. exact pair_t2_swap. Qed.
+Print Assumptions C07_pair_t2_swap.
